@@ -555,6 +555,37 @@ func genModelFontOpt(rng *rand.Rand, nested bool) *modelFont {
 			}
 		}
 	}
+	// a second name for the same charstring, byte for byte (`A` and `A.alt`,
+	// `Aacute` and `Aacute.sc`): each name has the outline, composites included
+	if rng.IntN(3) == 0 && len(w.Glyphs) > 1 {
+		for k, n := 0, 1+rng.IntN(2); k < n; k++ {
+			g := w.Glyphs[rng.IntN(len(w.Glyphs))]
+			if g.Seac == nil && rng.IntN(2) == 0 {
+				// prefer a composite when there is one
+				for _, h := range w.Glyphs {
+					if h.Seac != nil && rng.IntN(2) == 0 {
+						g = h
+						break
+					}
+				}
+			}
+			name := g.Name + []string{".alt", ".sc", "0", "zz"}[rng.IntN(4)]
+			if g.Name == "" || g.Name == ".notdef" || g.SameAs != "" || used[name] {
+				continue
+			}
+			used[name] = true
+			dup := *g
+			dup.Name, dup.SameAs = name, g.Name
+			w.Glyphs = append(w.Glyphs, &dup)
+			if mf.skipStems[g.Name] {
+				mf.skipStems[name] = true
+			}
+			mf.feat["two names for one charstring"] = true
+			if g.Seac != nil {
+				mf.feat["two names for one composite charstring"] = true
+			}
+		}
+	}
 	// expected glyphs
 	byName := map[string]*ref.WGlyph{}
 	for _, g := range w.Glyphs {
